@@ -337,6 +337,37 @@ def explore(ctx, fns, tier, search=False):
             continue
         check_tuple(ctx, fix_slice, shape, t, cases, "beyond")
     ctx.correspond("slice functions beyond the scope", cases)
+    # (f') the three hyperslab forms as other clients write them: [a], [a:b], [a:k:b] (inclusive stop)
+    cases = []
+    forms = []
+    for N in range(1, 7):
+        for a in range(0, N):
+            forms.append((N, "[%d]" % a, [a]))
+            for b in range(a, N + 1):
+                forms.append((N, "[%d:%d]" % (a, b), [x for x in range(a, b + 1) if x < N]))
+                for k in (1, 2, 3):
+                    forms.append((N, "[%d:%d:%d]" % (a, k, b), [x for x in range(a, b + 1, k) if x < N]))
+    for _ in range(300 if tier == "quick" else 5000):
+        N = rng.randint(1, 10 ** 4)
+        a = rng.randint(0, N - 1)
+        b = rng.randint(a, N + 3)
+        k = rng.randint(1, 60)
+        forms.append((N, "[%d:%d:%d]" % (a, k, b), [x for x in range(a, b + 1, k) if x < N]))
+    for N, text, exp in forms:
+        case = {"fn": "parse_hyperslab", "N": N, "text": text}
+        try:
+            back = parse_hyperslab(text)
+            impl = "(ok" + "".join(" " + sl_sexp(s) for s in back) + ")"
+            got = np.arange(N)[back].tolist()
+        except Exception as e:
+            impl = "(err %s)" % err_class(e)
+            got = impl
+        cases.append(("parsehs %s" % hexb(text.encode()), impl, {"text": text}))
+        if got != exp:
+            ctx.oracle_fail("parse_hyperslab selects other positions than the DAP hyperslab names", case, got, exp,
+                            size=N)
+        ctx.count(("form", N, text), True, tag="forms:%d-token" % (text.count(":") + 1), sample=case)
+    ctx.correspond("parse_hyperslab on the three hyperslab forms", cases)
     # (f) malformed hyperslab texts: error classes must agree (feeds C15's model of parse errors)
     cases = []
     texts = list(MALFORMED)
@@ -363,7 +394,10 @@ def replay(payload):
         return False
     c = f["case"]
     g = {"slice": slice, "Ellipsis": Ellipsis}
-    if c["fn"] == "fix_slice":
+    if c["fn"] == "parse_hyperslab":
+        x = np.arange(c["N"])
+        got, exp = x[parse_hyperslab(c["text"])], np.asarray(f["expected"])
+    elif c["fn"] == "fix_slice":
         shape = tuple(c["shape"]) if "shape" in c else (c["N"],)
         x = np.arange(int(np.prod(shape))).reshape(shape)
         idx = eval(c["index"], g)
